@@ -185,18 +185,43 @@ def run(ctx, model_available=True):
                 failures.append({"kind": "oracle", "sig": "C18:connect", "desc": f"connect raised {type(e).__name__}", "case": {}})
                 continue
             fake = FakeAioMqtt.instances[-1]
+            # writes through the client itself: what reaches the broker client's publish
+            for m in ([mm for mm in msgs if mm[5] == "" and mm[3] == 1][:2] if dist["event_sequences"] % 3 == 0 else []) + rng.sample(msgs, 3):
+                n, c, k, a, t, p = m
+                if dist["event_sequences"] % 2 == 0 and rng.random() < 0.5:
+                    p = ""
+                line = f"{n};{c};{k};{a};{t};{p}\n"
+                dist["client_writes"] = dist.get("client_writes", 0) + 1
+                kinds.add(("client", k, a, p == ""))
+                try:
+                    loop.run_until_complete(cl.write(line))
+                    topic, kw = fake.published[-1]
+                except Exception as e:  # noqa: BLE001
+                    failures.append({"kind": "oracle", "sig": "C18:client-publish", "desc": f"MQTTClient.write({line!r}) raised {type(e).__name__}: {e}", "case": {"line": line, "out_prefix": outpre}})
+                    continue
+                got = (topic, kw.get("payload") or "", kw.get("qos", 0), bool(kw.get("retain", False)))
+                want_pub = (f"{outpre}/{n}/{c}/{k}/{a}/{t}", p, a, False)
+                if got != want_pub:
+                    failures.append({"kind": "oracle", "sig": "C18:client-publish", "desc": f"MQTTClient.write({line!r}) called the broker client's publish with (topic, payload, qos, retain) = {got} (keywords {kw}), the property requires {want_pub}", "case": {"line": line, "out_prefix": outpre, "keywords": {kk: str(vv) for kk, vv in kw.items()}}})
+                d.add(f"MQP {enc_str(outpre)} {enc_str(line)}")
+                exp.append(("p", (outpre, line), f"{kw.get('qos', 0)}|{'R' if kw.get('retain', False) else '-'}|{'S' + kw['payload'] if 'payload' in kw else 'N'}|{topic}"))
             evs = []
-            for _ in range(rng.randint(0, 6)):
-                x = rng.random()
+            burst = rng.random() < 0.06
+            for _ in range(rng.randint(120, 400) if burst else rng.randint(0, 6)):
+                x = rng.random() * (0.9 if burst else 1.0)   # a burst ends with (at most) one broker error
                 if x < 0.65:
                     evs.append(("M", f"{inpre}/1/2/1/0/{rng.randint(0, 9)}", rng.choice(["1", "x;y", "åä", ""]).encode()))
                 elif x < 0.9:
                     evs.append(("M", f"{inpre}/1/2/1/0/2", rng.choice([b"\xff\xfe", b"\xc3", b"ok\x80"])))
                 else:
                     evs.append(("E",))
+            if burst and rng.random() < 0.5:
+                evs.append(("E",))
             for e in evs:
                 fake.q.put_nowait("ERROR" if e[0] == "E" else FakeMessage(e[1], e[2]))
-            spin(loop, 12)
+            spin(loop, 12 + 2 * len(evs))
+            if burst:
+                dist["unread_bursts"] = dist.get("unread_bursts", 0) + 1
             # expected queue entries from the property text
             want = []
             for e in evs:
@@ -228,7 +253,7 @@ def run(ctx, model_available=True):
                     got.append("ESCAPE " + type(e).__name__)
             if got != want:
                 sig = "C18:deaf" if "HANG" in got else "C18:fifo"
-                failures.append({"kind": "oracle", "sig": sig, "desc": f"broker events {evs}: reads give {got}, expected {want}", "case": {"events": [list(map(str, e)) for e in evs]}})
+                failures.append({"kind": "oracle", "sig": sig, "desc": f"{len(evs)} broker events {evs[:8]}{'...' if len(evs) > 8 else ''} arrived before the first read: reads give {got[:8] + ['...'] + got[-3:] if len(got) > 12 else got}, expected {want[:8] + ['...'] + want[-3:] if len(want) > 12 else want}", "case": {"events": [list(map(str, e)) for e in evs[:50]], "n_events": len(evs)}})
             # nothing more is pending
             task = loop.create_task(cl.read())
             spin(loop, 3)
@@ -258,7 +283,7 @@ def run(ctx, model_available=True):
     return {
         "evaluations": dist["writes"] + dist["echoes"] + dist["subscription_checks"] + dist["event_sequences"],
         "distinct_nontrivial": len(kinds),
-        "rule": "messages (all commands, boundary ids, payloads with ';' and '/', non-ASCII, empty) x 6 prefix pairs (with and without '/', '+', '#') through a recording MQTTTransport: publish arguments, echo under the in-prefix, read back, decode; subscriptions against MQTT filter matching for commands 0..5; MQTTClient over a fake aiomqtt client whose message iterator stays pending: event sequences with undecodable payloads and broker errors, reads in order, connect/disconnect; distinct = (command, ack, ';' in payload, '/' in payload, '/' in prefix, empty payload)",
+        "rule": "messages (all commands, boundary ids, payloads with ';' and '/', non-ASCII, empty) x 6 prefix pairs (with and without '/', '+', '#') through a recording MQTTTransport: publish arguments, echo under the in-prefix, read back, decode; subscriptions against MQTT filter matching for commands 0..5; MQTTClient over a fake aiomqtt client whose message iterator stays pending: writes through the client (keyword arguments of the broker client's publish: qos, retain, payload), event sequences (some of them bursts of 120-400 messages that arrive before the first read) with undecodable payloads and broker errors, reads in order, connect/disconnect; distinct = (command, ack, ';' in payload, '/' in payload, '/' in prefix, empty payload)",
         "samples": [str(m) for m in msgs[:3]],
         "distribution": dist,
         "failures": list(seen.values()),
